@@ -294,7 +294,20 @@ pub fn run(ctx: &Ctx, sh: &mut Shard) {
             check_extreme_scale(sh, t, e64, e32, false);
             continue;
         }
-        let (a, b, lat) = if k % 6 == 5 { gen_in_hole(&mut r) } else { super::c01::gen_case(&mut r) };
+        // one case in 200: many members on a grid against a partner near one of them (gen_many_members), or an operand of
+        // realistic size with a derived partner (gen_large_pair): the distance oracle is only O(n*m)
+        let (a, b, lat) = if k % 200 == 7 {
+            let (a, b, cls) = if r.chance(1, 2) {
+                gen_many_members(&mut r)
+            } else {
+                match gen_large_pair(&mut r) {
+                    Some(x) => x,
+                    None => gen_many_members(&mut r),
+                }
+            };
+            sh.class(cls);
+            (a, b, Lat::random(&mut r))
+        } else if k % 6 == 5 { gen_in_hole(&mut r) } else { super::c01::gen_case(&mut r) };
         if a.n_segments() + b.n_segments() > 700 {
             continue;
         }
